@@ -18,7 +18,8 @@ from .. import run, seq
 from ..alpha import Snapshot
 from ..env import ENV, T0, REPO
 from ..spec import SpecCache, norm_key, same
-from ..worlds import CacheWorld, World, impl_op, model_op, template, val, _short
+from ..worlds import (CacheWorld, World, call, impl_op, model_op, template,
+                      val, _short)
 from . import c03
 
 TECHNIQUE = ('explicit-state BFS of FanoutCache against the single-cache '
@@ -277,6 +278,38 @@ def routing_unit(unit):
                         % (k1, k2, split[:6]),
                         {'types': '%s/%s' % (type(k1).__name__,
                                              type(k2).__name__)})
+    # ... also with a Disk subclass that encodes keys itself (JSONDisk: a
+    # tuple and the equal list are one key): the sharded cache must answer
+    # like the unsharded one
+    pairs = [((i, 'x'), [i, 'x']) for i in range(8)] + \
+        [(('a', (1, i)), ['a', [1, i]]) for i in range(4)]
+    for n in (1, 2, 3, 8, 13):
+        fobj = diskcache.FanoutCache(os.path.join(root, 'json%d' % n),
+                                     shards=n, disk=diskcache.JSONDisk)
+        ref = diskcache.Cache(os.path.join(root, 'jsonref%d' % n),
+                              disk=diskcache.JSONDisk)
+        try:
+            for k1, k2 in pairs:
+                part['transitions'] += 1
+                got, want = [], []
+                for obj, out in ((fobj, got), (ref, want)):
+                    out.append(call(obj.set, k1, 'A'))
+                    out.append(call(obj.get, k2, 'MISSING'))
+                    out.append(call(obj.add, k2, 'B'))
+                    out.append(call(obj.__contains__, k2))
+                    out.append(call(obj.touch, k2, 100))
+                    out.append(call(obj.pop, k2, 'MISSING'))
+                    out.append(call(obj.get, k1, 'MISSING'))
+                if not same(got, want):
+                    bad('equal-keys-different-shard',
+                        'JSONDisk, %d shards: set(%r) then get/add/contains/'
+                        'touch/pop(%r), get(first) -> %r; the unsharded cache '
+                        'gives %r' % (n, k1, k2, got, want),
+                        {'types': 'jsondisk'})
+                    break
+        finally:
+            fobj.close()
+            ref.close()
     part['samples'].append({'keys_hashed': len(golden),
                             'interpreters': sorted(runs)})
     run.drop(root)
@@ -316,6 +349,52 @@ def limits_unit(unit):
                                'per-shard limits %r' % (shards, total, got),
                     'replay': {'engine': 'GRID', 'module': 'props.c13',
                                'clause': 'size-limit-division'}})
+    # a setting changed through one handle and re-read through another one
+    # (reset(key) without a value) takes effect in every shard of the second
+    # handle, exactly as it does for two handles of an unsharded cache
+    for shards in (1, 2, 3, 8, 13):
+        results = []
+        for sharded in (True, False):
+            path = run.fresh_dir('l')
+            mk = (lambda: diskcache.FanoutCache(path, shards=shards)) \
+                if sharded else (lambda: diskcache.Cache(path))
+            a, b = mk(), mk()
+            out = []
+            try:
+                out.append(call(b.stats))                 # off: (0, 0)
+                call(a.stats, enable=True)
+                call(a.reset, 'cull_limit', 0)
+                out.append(call(b.reset, 'statistics'))
+                out.append(call(b.reset, 'cull_limit'))
+                for i in range(40):
+                    b.set(i, i, expire=1)
+                ENV.now += 5
+                for i in range(40, 60):
+                    b.set(i, i)      # cull_limit 0: nothing is culled
+                out.append(sum(1 for i in range(40, 60)
+                               if b.get(i) == i))
+                out.append(len(b))
+                out.append(call(b.stats))
+            finally:
+                a.close()
+                b.close()
+                run.drop(path)
+            results.append(out)
+        part['transitions'] += 1
+        part['executions'] += 2
+        part['states'] += 1
+        if not same(results[0], results[1]):
+            part['violations'].append({
+                'signature': {'clause': 'setting-reload-not-all-shards'},
+                'message': 'setting-reload-not-all-shards: %d shards: after '
+                           'handle A enabled statistics and set cull_limit=0, '
+                           'handle B reloaded both with reset(key) and stored '
+                           '40 expiring + 20 lasting items: [stats before, '
+                           'reloaded statistics, reloaded cull_limit, hits, '
+                           'len, stats] = %r; two handles of an unsharded '
+                           'cache give %r' % (shards, results[0], results[1]),
+                'replay': {'engine': 'GRID', 'module': 'props.c13',
+                           'clause': 'setting-reload-not-all-shards'}})
     return part
 
 
